@@ -149,7 +149,9 @@ class VCSAPI:
     def status(self, required_files: typ.Set[str]) -> typ.List[str]:
         """Get status lines."""
         status_output = self('status')
-        status_items  = [line.split(" ", 1) for line in status_output.splitlines()]
+        # The status is in the first two columns (which may be blank,
+        # e.g. " M path" for unstaged changes), the rest is the path.
+        status_items = [(line[:2], line[2:]) for line in status_output.splitlines()]
 
         return [
             filepath.strip()
